@@ -518,16 +518,25 @@ impl RowIdTreeMap {
 
         let (end_high, end_low) = match range.end_bound() {
             std::ops::Bound::Included(&end) => ((end >> 32) as u32, end as u32),
+            // `..0` is empty, there is no last element to compute
+            std::ops::Bound::Excluded(&0) => return 0,
             std::ops::Bound::Excluded(&end) => {
-                let end = end.saturating_sub(1);
+                let end = end - 1;
                 ((end >> 32) as u32, end as u32)
             }
             std::ops::Bound::Unbounded => (u32::MAX, u32::MAX),
         };
 
+        // Empty range (also covers an excluded start of u64::MAX)
+        if (start_high, start_low) > (end_high, end_low)
+            || matches!(range.start_bound(), std::ops::Bound::Excluded(&u64::MAX))
+        {
+            return 0;
+        }
+
         let mut count = 0;
 
-        while start_high <= end_high {
+        loop {
             let start = start_low;
             let end = if start_high == end_high {
                 end_low
@@ -545,6 +554,9 @@ impl RowIdTreeMap {
                 Some(RowIdSelection::Partial(set)) => {
                     count += set.insert_range(start..=end);
                 }
+            }
+            if start_high == end_high {
+                break;
             }
             start_high += 1;
             start_low = 0;
